@@ -244,6 +244,13 @@ def check_config(ctx, cfg):
             except Exception as e:
                 bad_hist.append(("add_window raised", type(e).__name__, name, queries, list(vis[id(target)]))); break
             log.append(("win", name, queries, got))
+            if not got:
+                # "raises and changes nothing": a refused window is still open - a legal name can still be added to it
+                try:
+                    fresh_name = ("zz_after_refusal", len(log))
+                    child.add_resource(R(), name=fresh_name, size=1); vis[id(child)].append(fresh_name)
+                except ValueError as e:
+                    bad_atomic.append(("add_window refused, and afterwards the window refuses a legal name", str(e)[:80]))
             if got != expect:
                 bad_hist.append(("add_window", name, queries, list(vis[id(target)]), "accepted" if got else "refused"))
             if got:
